@@ -127,6 +127,9 @@ fn recover(case : &Case, rules : &[SRule], disk : &Disk, clock : u64, rsched : S
                     let res2 = invoke(&world, is_build, None, case.rulefile_paths(), SchedSpec::serial());
                     let after2 = world.snapshot().0;
                     let inv2 = Inv{ op_index : victim, is_build : is_build, goal : None, rules : rules.to_vec(), before : before, after : after2, res : res2, model : m2 };
+                    // (a full build after a goal-restricted recovery may meet rules that cannot succeed in
+                    //  this workspace — a leaf the user moved away: nothing is demanded of it then)
+                    if is_build && inv2.predicted_errors().map(|e| e.len() > 0).unwrap_or(true) { break; }
                     if inv2.res.verdict != Verdict::Ok
                     {
                         vs.push(Violation{ prop : "C11", sig : format!("C11:{}later-invocation-failed:{}", prefix, hist::sig_of_verdict(&inv2.res.verdict)),
@@ -402,6 +405,7 @@ pub fn run_one(cfg : &Config, seed : u64, k : u64, stats : &mut Stats) -> Vec<Fo
 {
     let mut rng = Rng::derive(seed, 3);
     let mut g = GenCfg::base(cfg.thorough);
+    g.crowds = false;   // a kill before every mutation of a 200-rule build, each followed by a 200-rule recovery: hours per case
     g.max_rules = rng.range(1, if cfg.thorough { 10 } else { 6 });
     g.max_ops = 4;
     g.min_ops = 0;
